@@ -76,8 +76,11 @@ func (a *HMACAuth) Verify(r *http.Request, requestPath string, body []byte) erro
 		return ErrUnauthorized
 	}
 	t := time.Unix(ts, 0).UTC()
+	// One clock reading serves both the tolerance check and the nonce cache,
+	// so a nonce is remembered for exactly as long as its timestamp is accepted.
+	cur := now().UTC()
 	if a.Tolerance > 0 {
-		d := now().UTC().Sub(t)
+		d := cur.Sub(t)
 		if d < -a.Tolerance || d > a.Tolerance {
 			return ErrUnauthorized
 		}
@@ -88,7 +91,7 @@ func (a *HMACAuth) Verify(r *http.Request, requestPath string, body []byte) erro
 	} else {
 		a.nonce.setNow(now)
 	}
-	if !a.nonce.seenOnce(nonce, t.Add(a.Tolerance)) {
+	if !a.nonce.seenOnceAt(nonce, t.Add(a.Tolerance), cur) {
 		return ErrUnauthorized
 	}
 
@@ -163,6 +166,13 @@ func (c *nonceCache) setNow(now func() time.Time) {
 }
 
 func (c *nonceCache) seenOnce(nonce string, expiresAt time.Time) bool {
+	return c.seenOnceAt(nonce, expiresAt, c.now().UTC())
+}
+
+// seenOnceAt records nonce until expiresAt (inclusive: the tolerance check
+// still accepts a timestamp at exactly ts+tolerance) and reports whether it
+// was new at instant now.
+func (c *nonceCache) seenOnceAt(nonce string, expiresAt time.Time, now time.Time) bool {
 	if nonce == "" {
 		return false
 	}
@@ -171,14 +181,13 @@ func (c *nonceCache) seenOnce(nonce string, expiresAt time.Time) bool {
 	defer c.mu.Unlock()
 
 	// Opportunistic cleanup.
-	now := c.now().UTC()
 	for k, exp := range c.m {
-		if !now.Before(exp) {
+		if now.After(exp) {
 			delete(c.m, k)
 		}
 	}
 
-	if exp, ok := c.m[nonce]; ok && now.Before(exp) {
+	if exp, ok := c.m[nonce]; ok && !now.After(exp) {
 		return false
 	}
 	c.m[nonce] = expiresAt.UTC()
